@@ -376,14 +376,23 @@ impl<'source> Iterator for Lexer<'source> {
                     self.comment_depth += 1;
                     continue;
                 }
-                | Some((Ok(Tok::CommentClose), _)) => {
+                | Some((Ok(Tok::CommentClose), range)) => {
                     if self.comment_depth == 0 {
-                        break None;
+                        // A terminator without an open comment belongs to no term;
+                        // the grammar reports it instead of the stream ending early.
+                        break Some((range.start, Tok::CommentClose, range.end));
                     }
                     self.comment_depth -= 1;
                 }
                 | Some((Ok(_tok), _)) if self.comment_depth > 0 => continue,
                 | Some((Ok(tok), range)) => break Some((range.start, tok, range.end)),
+                | None if self.comment_depth > 0 => {
+                    // The input ended inside a block comment; report the unterminated
+                    // opener rather than treating the rest of the file as a comment.
+                    self.comment_depth = 0;
+                    let end = self.inner.source().len();
+                    break Some((end, Tok::CommentOpen, end));
+                }
                 | _ => break None,
             }
         }
